@@ -1004,7 +1004,9 @@ class Connection(object):
     def error_all_cp_sessions(self, exc):
         stream_ids = list(self._continuous_paging_sessions.keys())
         for stream_id in stream_ids:
-            self._continuous_paging_sessions[stream_id].on_error(exc)
+            session = self._continuous_paging_sessions.pop(stream_id, None)
+            if session is not None:
+                session.on_error(exc)
 
     def error_all_requests(self, exc):
         with self.lock:
